@@ -607,10 +607,10 @@ def main(tier, seed):
     texts = list(all_texts(maxlen))
     ctx.rule.append(f'A: every text over the 6 characters {{a 1 blank , " :}} of length <= {maxlen} '
                     f'({len(texts)}), each through the real parse_data and the real data_stmt rule, '
-                    f'those of length <= 6 also through the real line rule; non-trivial = distinct specification outcome (items, rest, flags)')
+                    f'those of length <= {4 if quick else 6} also through the real line rule; non-trivial = distinct specification outcome (items, rest, flags)')
     walls = ctx.extra.setdefault('suite_wall_s', {'build': round(time.time() - ctx.t0, 1)})
     t = time.time()
-    suite_texts(ctx, exe, texts, 'texts', line_maxlen=6)
+    suite_texts(ctx, exe, texts, 'texts', line_maxlen=4 if quick else 6)
     walls['texts'] = round(time.time() - t, 1)
     ctx.extra['exhaustive_suites'] = ['texts (all texts up to the length bound)', 'programs (all layouts up to the bounds)']
 
